@@ -3,7 +3,7 @@ from .common import *
 
 RULE = ("keys: all 6 hashes x parameter lists of 1..8 levels (H2 hook height and H5, W1..W8, uniform and mixed); counters: 0, 1, "
         "every radix boundary +-1, last, random; messages of lengths {0,1,..,4096}; every released signature is verified "
-        "through hss_verify, Signature+VerifyingKey and VerifierSignature+VerifyingKey; plus message lengths 0, 255..257, 65535..65537, 100000; buffers left behind by other keys (filled by their keygen, initialised by their signing call: shrunk slice and whole buffer)")
+        "through hss_verify, Signature+VerifyingKey and VerifierSignature+VerifyingKey; plus message lengths 0, 255..257, 65535..65537, 100000; buffers left behind by other keys (filled by their keygen, initialised by their signing call: shrunk slice and whole buffer); special seed values; a height-15 key with a buffer caching every level (library only)")
 ASSUMPTIONS = ["the Impl model is hand-written; agreement with the library is shown only on the cases run",
                "hash functions are arbitrary functions of fixed output length in every theorem"]
 
@@ -29,7 +29,7 @@ def run(ctx):
         return
     rng = ctx.rng
     nkeys = 18 if ctx.tier == "quick" else 60
-    keys = make_keys(ctx, spec_list(rng, ctx.tier, nkeys), proj)
+    keys = make_keys(ctx, spec_list(rng, ctx.tier, nkeys) + [("S32", [(3, 1), (3, 1)], bytes(32)), ("K16", [(2, 1)], bytes(16)), ("S24", [(3, 5)], b"\xff" * 24)], proj)
     # Seed objects built from 32 bytes (Seed::from): for the truncated hashes the bytes beyond the hash length are not part of
     # the seed; key generation from such an object must give the key pair of the n-byte seed (and so verify what sign produces)
     full_cases = []
@@ -100,6 +100,32 @@ def run(ctx):
             c = rng.randrange(k.lifetime)
             msg = rng.bytes_(ml)
             sign_cases.append(Case(sign_line(k.H, k.blob(c), msg), "sign/message-length-boundary", {"key": k, "c": c, "msg": msg, "n": k.n}))
+    # a tall top tree (H15) with a buffer that caches every level (levels above 64 KiB included): library only - the model would need
+    # hours for a 32768-leaf tree; the oracle is verification under the public key generated *without* a buffer
+    from check import canon as _canon
+    tH, tps, tseed = "S32", [(2, 7)], rng.bytes_(32)
+    tall = [_canon(x) for x in ctx.hz.batch([keygen_line(tH, tps, tseed), keygen_line(tH, tps, tseed, bytes(1500000))])]
+    ctx.evaluations += 2
+    ctx.classes[("keygen/h15-all-levels-cached", cls_of(tall[1]))] = 1
+    if not (tall[0].startswith("ok") and tall[1].startswith("ok")) or fields(tall[0]).get("vk") != fields(tall[1]).get("vk"):
+        ctx.fail("a released signature does not verify under the public key of the same seed: key generation of a height-15 key with a large "
+                 "auxiliary buffer gives another public key", [keygen_line(tH, tps, tseed, bytes(8))[:200] + "... (1500000 zero bytes)"], tall[1][:120], tall[0][:120])
+    else:
+        tvk, taux = unhx(fields(tall[0])["vk"]), unhx(fields(tall[1])["aux"])
+        tcnt = [0, 2047, 2048, 4095, 4096, 8191, 8192, 16384, 32766, 32767] + [rng.randrange(32768) for _ in range(4)]
+        tl = [sign_line(tH, sk_blob(tH, tps, tseed, c_), b"tall", "accept", taux) for c_ in tcnt]
+        ta = [_canon(x) for x in ctx.hz.batch(tl)]
+        vl = [verify_line(tH, b"tall", unhx(fields(x)["sig"]), tvk) for x in ta if x.startswith("ok")]
+        va = [_canon(x) for x in ctx.hz.batch(vl)]
+        ctx.evaluations += len(tl) + len(vl)
+        ctx.classes[("sign/h15-all-levels-cached", "ok")] = sum(1 for x in ta if x.startswith("ok"))
+        for c_, x in zip(tcnt, ta):
+            if not x.startswith("ok"):
+                ctx.fail("signing with an unexhausted key failed", ["height-15 key, counter %d, buffer filled by keygen" % c_], x[:160], "ok")
+        for c_, x in zip([c_ for c_, x in zip(tcnt, ta) if x.startswith("ok")], va):
+            if x != "ok":
+                ctx.fail("a released signature does not verify under the public key of the same seed",
+                         [keygen_line(tH, tps, tseed), "sign with the 1.4 MB buffer filled by keygen, counter %d (top-tree leaf %d)" % (c_, c_)], x, "ok")
     ver_cases = []
     for c, a, b in ctx.both(sign_cases, proj):
         k = c.meta["key"]
